@@ -150,6 +150,13 @@ func c07Scalar(c *Ctx, fd *ast.FuncDecl, name string, t *types.Named, par types.
 		if !ok || b.Op != token.EQL || st == nil || st.NumFields() != 1 {
 			return false
 		}
+		if dl, ok := b.X.(TDeref); ok {
+			// *recv == *other: the wrapper has exactly one field, so comparing the structs compares the payloads
+			if dr, ok := b.Y.(TDeref); ok {
+				return (v.isRecv(dl.X) && otherValue(dr.X, par, own)) || (v.isRecv(dr.X) && otherValue(dl.X, par, own))
+			}
+			return false
+		}
 		l, ok1 := b.X.(TSel)
 		r, ok2 := b.Y.(TSel)
 		if !ok1 || !ok2 || l.Field != st.Field(0) || r.Field != st.Field(0) {
